@@ -82,7 +82,8 @@ func VerifDecode(segs ...[]byte) (recs []VerifDecoded, err error, lastOff int64)
 			}
 			d.updateCRC(rec.Crc)
 		}
-		recs = append(recs, VerifDecoded{rec.Type, rec.Crc, append([]byte(nil), rec.Data...)})
+		// decode() resets rec before every record, so rec.Data is a fresh slice (nil stays nil)
+		recs = append(recs, VerifDecoded{rec.Type, rec.Crc, rec.Data})
 	}
 	return recs, err, d.lastOffset()
 }
